@@ -222,7 +222,7 @@ fn o3_3_acknowledge_invalid_id() {
     std::mem::forget(r0); std::mem::forget(r1); std::mem::forget(s);
 }
 
-//@h props=C20,C12,C03,C06,C15 tier=quick timeout=1500 role=sender-ack-valid
+//@h props=C20,C12,C03,C06,C15 tier=quick timeout=1500 role=sender-ack-valid cbmc=--max-field-sensitivity-array-size+512
 //@fn PacketSender::acknowledge
 //@bound W=4, base 2^20-2, two emitted packets (1 and 2 bytes); acknowledged id = ANY valid 20-bit id
 #[kani::proof]
@@ -246,7 +246,7 @@ fn o3_3_acknowledge_any_valid_id() {
     std::mem::forget(r0); std::mem::forget(r1); std::mem::forget(s);
 }
 
-//@h props=C20,C12,C06 tier=quick timeout=1200 role=sender-stale-multifragment
+//@h props=C20,C12,C06 tier=quick timeout=1200 role=sender-stale-multifragment cbmc=--max-field-sensitivity-array-size+512
 //@fn PacketSender::{enqueue_packet, emit_packet, acknowledge}, alloc_size
 //@bound W=4, base 2^20-1; queue = [TimeSensitive 1449 bytes (two fragments, not a multiple of the fragment size), Reliable 2 bytes]; a step() intervenes before the flush (flush ids differ by any amount), then the peer acknowledges everything
 #[kani::proof]
@@ -279,4 +279,30 @@ impl PacketSender {
     pub(crate) fn verif_front_mode(&self) -> u8 {
         match self.packet_send_queue.front().map(|p| p.mode) { Some(SendMode::TimeSensitive) => 0, Some(SendMode::Unreliable) => 1, Some(SendMode::Persistent) => 2, Some(SendMode::Reliable) => 3, None => 9 }
     }
+}
+
+//@h props=C06,C05,C20 tier=quick timeout=900 role=sender-alloc-limit also_quick=C05
+//@fn PacketSender::{enqueue_packet, emit_packet, acknowledge}, alloc_size
+//@bound W=4, base 2^20-1, peer allocation limit 2 fragments (2896 bytes); queue = [100 bytes, 1449 bytes (two fragments: charged 2896 by the receiver)], modes any; then the peer acknowledges the first packet
+#[kani::proof]
+#[kani::unwind(5)]
+fn o6_3_alloc_limit_counts_fragment_rounded_size() {
+    let base = 0xFFFFF;
+    let mut s = small(4, base, 1448 * 2);
+    let fid: u32 = kani::any();
+    let (m0, m1) = (any_mode(), any_mode());
+    s.enqueue_packet(vec![0u8; 100].into_boxed_slice(), 0, m0, fid);
+    s.enqueue_packet(vec![0u8; 1449].into_boxed_slice(), 0, m1, fid);
+    let r0 = s.emit_packet(fid);
+    assert!(r0.is_some() && s.alloc == 100);
+    let r1 = s.emit_packet(fid);
+    assert!(r1.is_none(), "[C06,C05] a packet whose fragment-rounded size does not fit the peer's remaining receive allocation is held back (the receiver would have to discard it)");
+    assert!(s.alloc <= s.max_alloc && s.pending_count() == 1 && s.total_size() == 1549);
+    s.acknowledge(0);
+    assert!(s.alloc == 0 && s.total_size() == 1449, "[C20,C06] the acknowledged packet leaves both counters");
+    let r2 = s.emit_packet(fid);
+    assert!(r2.is_some() && s.alloc == 2896 && s.alloc <= s.max_alloc, "[C05,C11] it is sent once the allocation is free; charged at the size the receiver allocates");
+    s.acknowledge(1);
+    assert!(s.alloc == 0 && s.total_size() == 0, "[C20] zero once everything has been acknowledged: payload bytes, not fragment-rounded bytes");
+    std::mem::forget(r0); std::mem::forget(r2); std::mem::forget(s);
 }
